@@ -752,6 +752,12 @@ pub fn check_trace(s: &Script, tr: &Trace, rep: &mut Report) -> Outcome {
                     if let Some(pc) = policy.get(index) {
                         if e.charge_known && *pc != e.charge {
                             fail!("C16", "charge/mismatch", "key {}: charged {pc}, expected {} (overhead {overhead})", e.key, e.charge);
+                            // C09: on a resident key insert_if_present is an update of value *and cost*
+                            if let Step::InsertIfPresent { k, .. } = step {
+                                if *k == e.key && o.ret_bool == Some(true) && o.tick_at.is_none() {
+                                    also!("C09", "if-present/cost-not-updated", format!("{} returned true, yet key {} is charged {pc} instead of {} (overhead {overhead})", step.short(), e.key, e.charge));
+                                }
+                            }
                         }
                     }
                 }
